@@ -30,6 +30,7 @@ type Environment struct {
 	// function in a local binding: it shadows, for the recursive calls made from here, the top level function
 	// of that name which a remembered result was computed with.
 	localFunc bool
+	root      *Environment // the top level environment this (function) frame hangs from; nil at depth 0 (see rootOf).
 	function  *Function
 	registers [NumRegisters]int64
 	numReg    int
@@ -400,13 +401,29 @@ func (e *Environment) create(name string, val Object) Object {
 	}
 	val = Value(val)
 	e.store[name] = val
-	e.noteLocal(val)
+	e.noteLocal(name, val)
 	return val
 }
 
-// noteLocal records that a function was stored in a binding of this (non top level) frame. See localFunc.
-func (e *Environment) noteLocal(val Object) {
-	if e.depth > 0 && val.Type() == FUNC {
+// rootOf is the top level (depth 0) environment of this frame's scope chain.
+func (e *Environment) rootOf() *Environment {
+	if e.depth == 0 || e.root == nil {
+		return e
+	}
+	return e.root
+}
+
+// noteLocal records that a binding of this (non top level) frame was given a function, or shadows a top level
+// function of the same name (whatever it holds: g := 5 hides the top level g from the recursive calls). See localFunc.
+func (e *Environment) noteLocal(name string, val Object) {
+	if e.depth == 0 {
+		return
+	}
+	if val.Type() == FUNC {
+		e.localFunc = true
+		return
+	}
+	if top, ok := e.rootOf().store[name]; ok && top.Type() == FUNC {
 		e.localFunc = true
 	}
 }
@@ -436,7 +453,7 @@ func (e *Environment) update(name string, found, val Object) Object {
 	}
 	writer.functionChanged(e.store[name])
 	e.store[name] = val
-	e.noteLocal(val)
+	e.noteLocal(name, val)
 	if e.depth == 0 {
 		e.numSet++
 	}
@@ -459,7 +476,7 @@ func (e *Environment) SetNoChecks(name string, val Object, create bool) Object {
 		log.Debugf("SetNoChecks(%s) created ref %s in %d", name, ref.Name, ref.RefEnv.depth)
 		e.functionChanged(ref.RefEnv.store[ref.Name])
 		ref.RefEnv.store[ref.Name] = Value(val) // kinda neat to make aliases but it can create loops, so not for now.
-		ref.RefEnv.noteLocal(Value(val))
+		ref.RefEnv.noteLocal(ref.Name, Value(val))
 		return val
 	}
 	log.Debugf("SetNoChecks(%s) brand new to %d and above", name, e.depth)
@@ -555,6 +572,7 @@ func NewFunctionEnvironment(fn Function, current *Environment) (*Environment, bo
 		function: &fn,
 		funcGen:  parent.funcGen,
 	}
+	env.root = parent.rootOf()
 	if sameFunction {
 		env.localFunc = current.localFunc
 	}
